@@ -23,7 +23,7 @@ go test -vet=off -count=1 -run "^($tests)\$" ./$dir 2>&1 | tail -3
 r0=${PIPESTATUS[0]}
 git apply $src/patch.diff || { echo "PATCH DOES NOT APPLY"; cleanup; exit 3; }
 echo "== suite WITH patch (must pass, flaky skipped)"
-go test -vet=off -count=1 -skip 'TestLinkedListQueue|TestNewBufferedChannelQueue|TestWorkerJamDuration|Demo|Seed' . ./network ./worker 2>&1 | tail -4
+go test -vet=off -count=1 -skip "TestLinkedListQueue|TestNewBufferedChannelQueue|TestWorkerJamDuration|Demo|Seed|$tests" . ./network ./worker 2>&1 | tail -4
 echo "== demo WITH patch (must fail)"
 go test -vet=off -count=1 -run "^($tests)\$" ./$dir 2>&1 | tail -6
 r1=${PIPESTATUS[0]}
